@@ -46,16 +46,15 @@ func Verif_C01_event_mix_two_connections() {
 	if verifTier() >= 1 {
 		K, d = 3, 1
 	}
-	verifNote("real peer with both connections up (outbound dialled, inbound injected): both in OpenSent, or one of them already in OpenConfirm (symbolic; start-up under the base schedule), then K events (2 quick / 3 thorough), each symbolically {valid OPEN, KEEPALIVE, FIN} (thorough also UPDATE, and the start state with both in OpenSent) on a symbolically chosen connection, delivered back to back (no quiescence in between): all schedules with at most 1 delay (sleep-set reduced), plugin callbacks contain a scheduling point (so overlapping callbacks would be observed); then quiescence, monitors, peer.stop(), monitors")
+	verifNote("real peer with both connections up (outbound dialled, inbound injected): both in OpenSent, or one of them already in OpenConfirm (symbolic; start-up under the base schedule), then K events (2 quick / 3 thorough), each symbolically {valid OPEN, KEEPALIVE, FIN} on a symbolically chosen connection, delivered back to back (no quiescence in between): all schedules with at most 1 delay (sleep-set reduced), plugin callbacks contain a scheduling point (so overlapping callbacks would be observed); then quiescence, monitors, peer.stop(), monitors")
 	e := newPenv(false)
 	e.pl.yieldInCallbacks = true
 	e.p.start()
 	// start: both in OpenSent, or one of them already in OpenConfirm (its OPEN exchange done)
 	so, si := stOpenSent, stOpenSent
-	ns, ne := 2, 3 // quick: one side already in OpenConfirm; events OPEN / KEEPALIVE / FIN
-	if verifTier() >= 1 {
-		ns, ne = 3, 4
-	}
+	ns, ne := 2, 3 // one side already in OpenConfirm; events OPEN / KEEPALIVE / FIN (both tiers: with 3 events the
+	// larger menu {UPDATE, both in OpenSent} does not finish within the thorough budget; UPDATEs and the
+	// both-in-OpenSent start are exercised by event_sequences_full_menu and by C07)
 	switch verifChoose("start", ns) {
 	case 0:
 		so = stOpenConfirm
